@@ -20,6 +20,9 @@ CONSTANTS Ops,         \* names of the methods explored in this run
           Cols,        \* move_to_column / append_wrapped_at_column columns
           Sigs,        \* [name, args, rt, async] records for write_function_signature
           Levels,      \* indentation levels of the initial writers
+          CurTexts,    \* partial current lines of the initial writers (a writer in the middle of a line)
+          PreLines,    \* lines the initial writers have completed already (a sequence of strings)
+          LawDepth,    \* the quantified statements are evaluated in states reached by fewer calls than this
           Mw0,         \* width the writer was constructed with
           MaxCalls,    \* calls per behaviour
           EmitEdges    \* print EDGE lines
@@ -27,44 +30,52 @@ CONSTANTS Ops,         \* names of the methods explored in this run
 VARIABLES st, n, fed
 vars == <<st, n, fed>>
 
-NoArg(op) == Call(op, "", "", 0, 0, <<>>)
+NoArg(op) == Call(op, <<>>, <<>>, 0, 0, <<>>)
+\* the alphabets are given as strings; inside the model texts are character sequences
+TTexts == {T(s) : s \in Texts}
+TBlockTexts == {T(s) : s \in BlockTexts}
+TWrapTexts == {T(s) : s \in WrapTexts}
+TPrefixes == {T(s) : s \in DocPrefixes}
 WrapCalls ==
-  {Call("append_wrapped", t, "", 0, 0, <<>>) : t \in WrapTexts}
-  \cup {Call("write_wrapped_line", t, "", w, 0, <<>>) : t \in WrapTexts, w \in Widths}
-  \cup {Call("write_wrapped_docstring_line", t, p, w, 0, <<>>) : t \in WrapTexts, p \in DocPrefixes, w \in Widths}
-SigCalls == {Call("write_function_signature", s.name, s.rt, 0, s.async, s.args) : s \in Sigs}
-BlockCalls == {Call("write_block", b, "", 0, 0, <<>>) : b \in BlockTexts}
-LineCalls == {Call("write_line", t, "", 0, 0, <<>>) : t \in Texts}
+  {Call("append_wrapped", t, <<>>, 0, 0, <<>>) : t \in TWrapTexts}
+  \cup {Call("write_wrapped_line", t, <<>>, w, 0, <<>>) : t \in TWrapTexts, w \in Widths}
+  \cup {Call("write_wrapped_docstring_line", t, p, w, 0, <<>>) : t \in TWrapTexts, p \in TPrefixes, w \in Widths}
+SigCalls == {Call("write_function_signature", T(s.name), T(s.rt), 0, s.async, Ts(s.args)) : s \in Sigs}
+BlockCalls == {Call("write_block", b, <<>>, 0, 0, <<>>) : b \in TBlockTexts}
+LineCalls == {Call("write_line", t, <<>>, 0, 0, <<>>) : t \in TTexts}
 
 Step(c) ==
-  /\ c.op \in Ops /\ n < MaxCalls
+  /\ n < MaxCalls
   /\ st' = Apply(c, st).st /\ n' = n + 1
-  /\ fed' = IF c.op = "replace_current_line" THEN Sub(fed, 1, Len(fed) - Len(NS(Cur(st)))) \o NS(c.t) ELSE fed \o Fed(c)
-  /\ (EmitEdges => PrintT("EDGE " \o ToJson([s |-> st, c |-> c])))
+  /\ fed' = IF c.op = "replace_current_line" THEN SubSeq(fed, 1, Len(fed) - Len(NS(Cur(st)))) \o NS(c.t) ELSE fed \o Fed(c)
+  /\ (EmitEdges => PrintT("EDGE " \o ToJson([s |-> ExtState(st), c |-> ExtCall(c)])))
 
-Init == /\ \E l \in Levels : st = [New(Mw0) EXCEPT !.level = l]
-        /\ n = 0 /\ fed = ""
+\* the initial writers: every frontier (level, partial line, just-newlined flag) behind some completed lines -
+\* such a writer is reachable by indent / write_line / append / newline calls, and no method reads completed lines
+Init == /\ \E l \in Levels, c \in CurTexts, j \in BOOLEAN :
+             /\ st = [level |-> l, lines |-> Ts(PreLines) \o <<T(c)>>, jn |-> j, mw |-> Mw0]
+        /\ n = 0 /\ fed = NS(Cat(st.lines))
 
 \* ---- LineWriter
-DoIndent == Step(NoArg("indent"))
-DoDedent == Step(NoArg("dedent"))
-DoAppend == \E t \in Texts : Step(Call("append", t, "", 0, 0, <<>>))
-DoNewline == Step(NoArg("newline"))
-DoMoveToColumn == \E k \in Cols : Step(Call("move_to_column", "", "", 0, k, <<>>))
-DoReplaceCurrentLine == \E t \in Texts : Step(Call("replace_current_line", t, "", 0, 0, <<>>))
-DoAppendWrapped == \E t \in WrapTexts : Step(Call("append_wrapped", t, "", 0, 0, <<>>))
-DoWrapAndAppend == \E t \in WrapTexts, w \in Widths, p \in DocPrefixes : Step(Call("wrap_and_append", t, p, w, 0, <<>>))
-DoAppendWrappedAtColumn == \E t \in WrapTexts, w \in Widths, k \in Cols \cup {-1} : w > k /\ Step(Call("append_wrapped_at_column", t, "", w, k, <<>>))
-DoGetValue == Step(NoArg("getvalue"))
-DoCurrentLine == Step(NoArg("current_line"))
-DoCurrentWidth == Step(NoArg("current_width"))
+DoIndent == "indent" \in Ops /\ Step(NoArg("indent"))
+DoDedent == "dedent" \in Ops /\ Step(NoArg("dedent"))
+DoAppend == "append" \in Ops /\ \E t \in TTexts : Step(Call("append", t, <<>>, 0, 0, <<>>))
+DoNewline == "newline" \in Ops /\ Step(NoArg("newline"))
+DoMoveToColumn == "move_to_column" \in Ops /\ \E k \in Cols : Step(Call("move_to_column", <<>>, <<>>, 0, k, <<>>))
+DoReplaceCurrentLine == "replace_current_line" \in Ops /\ \E t \in TTexts : Step(Call("replace_current_line", t, <<>>, 0, 0, <<>>))
+DoAppendWrapped == "append_wrapped" \in Ops /\ \E t \in TWrapTexts : Step(Call("append_wrapped", t, <<>>, 0, 0, <<>>))
+DoWrapAndAppend == "wrap_and_append" \in Ops /\ \E t \in TWrapTexts, w \in Widths, p \in TPrefixes : w > Len(p) /\ Step(Call("wrap_and_append", t, p, w, 0, <<>>))
+DoAppendWrappedAtColumn == "append_wrapped_at_column" \in Ops /\ \E t \in TWrapTexts, w \in Widths, k \in Cols \cup {-1} : w > k /\ Step(Call("append_wrapped_at_column", t, <<>>, w, k, <<>>))
+DoGetValue == "getvalue" \in Ops /\ Step(NoArg("getvalue"))
+DoCurrentLine == "current_line" \in Ops /\ Step(NoArg("current_line"))
+DoCurrentWidth == "current_width" \in Ops /\ Step(NoArg("current_width"))
 \* ---- CodeWriter
-DoWriteLine == \E c \in LineCalls : Step(c)
-DoWriteBlock == \E c \in BlockCalls : Step(c)
-DoWriteWrappedLine == \E t \in WrapTexts, w \in Widths : Step(Call("write_wrapped_line", t, "", w, 0, <<>>))
-DoWriteWrappedDocstringLine == \E t \in WrapTexts, p \in DocPrefixes, w \in Widths : Step(Call("write_wrapped_docstring_line", t, p, w, 0, <<>>))
-DoWriteFunctionSignature == \E c \in SigCalls : Step(c)
-DoGetCode == Step(NoArg("get_code"))
+DoWriteLine == "write_line" \in Ops /\ \E c \in LineCalls : Step(c)
+DoWriteBlock == "write_block" \in Ops /\ \E c \in BlockCalls : Step(c)
+DoWriteWrappedLine == "write_wrapped_line" \in Ops /\ \E t \in TWrapTexts, w \in Widths : Step(Call("write_wrapped_line", t, <<>>, w, 0, <<>>))
+DoWriteWrappedDocstringLine == "write_wrapped_docstring_line" \in Ops /\ \E t \in TWrapTexts, p \in TPrefixes, w \in Widths : Step(Call("write_wrapped_docstring_line", t, p, w, 0, <<>>))
+DoWriteFunctionSignature == "write_function_signature" \in Ops /\ \E c \in SigCalls : Step(c)
+DoGetCode == "get_code" \in Ops /\ Step(NoArg("get_code"))
 
 Next == \/ DoIndent \/ DoDedent \/ DoAppend \/ DoNewline \/ DoMoveToColumn \/ DoReplaceCurrentLine
         \/ DoAppendWrapped \/ DoWrapAndAppend \/ DoAppendWrappedAtColumn \/ DoGetValue \/ DoCurrentLine \/ DoCurrentWidth
@@ -83,46 +94,46 @@ DedentAtZero == st.level = 0 => Dedent(st) = st
 IndentDedentInverse == Dedent(Indent(st)) = st /\ (st.level > 0 => Indent(Dedent(st)) = st)
 
 \* a line written on a fresh line is the text behind four spaces per level - the level in force when it is written
-IndentIsFourPerLevel ==
-  \A t \in Texts : (t # "" /\ ~HasAny(t, {"|"}) /\ Unstarted(st)) =>
-      Region(st, WriteLine(st, t)) = <<Spaces(4 * st.level) \o t, "">>
+IndentIsFourPerLevel == n < LawDepth =>
+  \A t \in TTexts : (t # <<>> /\ ~HasAny(t, {"|"}) /\ Unstarted(st)) =>
+      Region(st, WriteLine(st, t)) = <<Spaces(4 * st.level) \o t, <<>>>>
 \* an empty line is empty at every level (no trailing blanks)
-BlankLinesAreEmpty == Unstarted(st) => Region(st, WriteLine(st, "")) = <<"", "">>
+BlankLinesAreEmpty == (n < LawDepth /\ Unstarted(st)) => Region(st, WriteLine(st, <<>>)) = <<<<>>, <<>>>>
 
 \* write_block under level k = its Python lines written one by one under level k (stated directly, not by iteration)
 BlockDirect(S, b) ==
   LET q == PyLines(b)
-      first == IF Unstarted(S) THEN (IF q[1] = "" THEN "" ELSE Spaces(4 * S.level) \o q[1]) ELSE Cur(S) \o q[1]
+      first == IF Unstarted(S) THEN (IF q[1] = <<>> THEN <<>> ELSE Spaces(4 * S.level) \o q[1]) ELSE Cur(S) \o q[1]
   IN IF q = <<>> THEN S
      ELSE [S EXCEPT !.jn = TRUE,
-                    !.lines = Done(S) \o <<first>> \o [i \in 1..Len(q) - 1 |-> IF q[i + 1] = "" THEN "" ELSE Spaces(4 * S.level) \o q[i + 1]] \o <<"">>]
-BlockIsLines == \A b \in BlockTexts : WriteBlock(st, b) = BlockDirect(st, b)
+                    !.lines = Done(S) \o <<first>> \o [i \in 1..Len(q) - 1 |-> IF q[i + 1] = <<>> THEN <<>> ELSE Spaces(4 * S.level) \o q[i + 1]] \o <<<<>>>>]
+BlockIsLines == n < LawDepth => \A b \in TBlockTexts : WriteBlock(st, b) = BlockDirect(st, b)
 \* ... and none of its characters is lost: the block comes back from the lines it produced
-BlockRoundTrip ==
-  \A b \in BlockTexts : Unstarted(st) =>
-    LET reg == Region(st, WriteBlock(st, b))  q == PyLines(b)
-    IN Len(reg) = Len(q) + 1 /\ \A i \in 1..Len(q) : LStrip(reg[i]) = LStrip(q[i])
+BlockRoundTrip == n < LawDepth =>
+  \A b \in TBlockTexts : Unstarted(st) =>
+    \A reg \in {Region(st, WriteBlock(st, b))}, q \in {PyLines(b)} :
+       Len(reg) = Len(q) + 1 /\ \A i \in 1..Len(q) : LStrip(reg[i]) = LStrip(q[i])
 
 \* the multi-line signature spells exactly the one-line signature, and leaves the level where it was
-SignatureSpells ==
-  \A c \in SigCalls : LET R == Apply(c, st).st IN
+SignatureSpells == n < LawDepth =>
+  \A c \in SigCalls : \A R \in {Apply(c, st).st} :
      /\ R.level = st.level
      /\ NS(Cat(Region(st, R))) = NS(Cur(st)) \o SigFlat(c.t, c.a, c.p, c.k)
      /\ Len(Region(st, R)) = (IF c.a = <<>> THEN 2 ELSE Len(c.a) + 3)
 
 \* wrapping, whenever there is room on the line (quantified over every wrapping call of the alphabet)
-WrapKeepsWidth == \A c \in WrapCalls : InContract(c, st) => WrapWidthOk(c, st, Apply(c, st).st)
-WrapKeepsText == \A c \in WrapCalls : InContract(c, st) => WrapTextOk(c, st, Apply(c, st).st)
-WrapAligns == \A c \in WrapCalls : InContract(c, st) => WrapAlignOk(c, st, Apply(c, st).st)
-WrapKeepsTokens == \A c \in WrapCalls : InContract(c, st) => WrapRejoinOk(c, st, Apply(c, st).st)
-WrapKeepsLevel == \A c \in WrapCalls : Apply(c, st).st.level = st.level /\ Apply(c, st).st.mw = st.mw
+WrapKeepsWidth == n < LawDepth => \A c \in WrapCalls : InContract(c, st) => \A R \in {Apply(c, st).st} : WrapWidthOk(c, st, R)
+WrapKeepsText == n < LawDepth => \A c \in WrapCalls : InContract(c, st) => \A R \in {Apply(c, st).st} : WrapTextOk(c, st, R)
+WrapAligns == n < LawDepth => \A c \in WrapCalls : InContract(c, st) => \A R \in {Apply(c, st).st} : WrapAlignOk(c, st, R)
+WrapKeepsTokens == n < LawDepth => \A c \in WrapCalls : InContract(c, st) => \A R \in {Apply(c, st).st} : WrapRejoinOk(c, st, R)
+WrapKeepsLevel == n < LawDepth => \A c \in WrapCalls : \A R \in {Apply(c, st).st} : R.level = st.level /\ R.mw = st.mw
 
 \* nothing that was passed in is lost, duplicated or reordered (blanks aside): history variable `fed`
 TextPreserved == NS(Cat(st.lines)) = fed
 
 \* get_code is the joined lines up to final newlines
 GetCodeIsLines == LET g == GetCode(st) v == GetValue(st) IN
-  /\ StartsWith(v, g) /\ NS(Sub(v, Len(g) + 1, Len(v))) = "" /\ (Len(g) > 0 => Ch(g, Len(g)) # "|")
+  /\ StartsWith(v, g) /\ NS(SubSeq(v, Len(g) + 1, Len(v))) = <<>> /\ (Len(g) > 0 => g[Len(g)] # "|")
 
 \* action properties: completed lines are never touched again; the level moves by one step at most
 AppendOnly == [][IsPrefix(Done(st), st'.lines)]_vars
